@@ -437,14 +437,22 @@ def expected_set(t, mode, model, leaf_value=None):
 
 
 def via_double_set(t, mode, model):
-    """What the expression would give if the literal were first replaced by its nearest binary64."""
+    """Model of the suspected defect, used ONLY to label a mismatch (never as the oracle): what the
+    expression would give if the literal were first replaced by its nearest binary64 `d`, taken either
+    exactly or through the shortest decimal string that reads back as `d` (repr of the double)."""
     lf = leaf(t)
-    if lf[1] not in ('float', 'int') or lf[2] is None:
+    if lf[1] != 'float' or lf[2] is None:
         return None
     d = to_double(lf[2])
     if d in (PINF, NINF):
         return 'inf'
-    return expected_set(t, mode, model, leaf_value=d)
+    out = set(expected_set(t, mode, model, leaf_value=d))
+    if isinstance(d, Fraction):
+        rep = repr(float(d))                      # exact conversion: d is a binary64 number
+        _, v, j, _ = py_number(rep)
+        if j == len(rep) and v != 0:
+            out |= expected_set(t, mode, model, leaf_value=v)
+    return out
 
 
 # ---------------------------------------------------------------------------
@@ -498,7 +506,7 @@ def build_source(exprs, mode, layout, deco_ctx):
         else:
             lines.append('            return (π, ' + ', '.join(rest) + ')\n')
         return ''.join(lines)
-    # layout 4: two literals per line inside a list-free nested tuple flattening is not possible; use several per line
+    # layout 4: three expressions per physical line of a continued tuple
     lines = [f'{deco}\n', 'def main():\n', '    return (\n']
     for k in range(0, len(items), 3):
         lines.append('        ' + ', '.join(items[k:k + 3]) + ',\n')
@@ -538,7 +546,7 @@ def shows(vs):
     return sorted(show(v) for v in vs)
 
 
-def classes_of(t, mode, model, text):
+def classes_of(t, mode, model):
     """(classes, non-trivial?) for one evaluation."""
     lf = leaf(t)
     kind, v, info = lf[1], lf[2], lf[3]
@@ -612,7 +620,7 @@ def failure_bucket(t, mode, model, got):
     lf = leaf(t)
     kind = lf[1]
     raised = isinstance(got, tuple) and got and got[0] in ('raise', 'reject')
-    if kind == 'float':
+    if kind == 'float' and isinstance(lf[2], Fraction):
         vd = via_double_set(t, mode, model)
         if vd == 'inf':
             # nearest double is infinite: the front end then sees repr 'inf' (raise) or an infinity
@@ -620,12 +628,16 @@ def failure_bucket(t, mode, model, got):
                 return 'float-literal-via-double'
         elif vd is not None and not raised and got in vd:
             return 'float-literal-via-double'
+        elif not raised and to_double(lf[2]) == PZERO and got in (PZERO, NZERO):
+            return 'float-literal-via-double'       # underflowed to a zero literal (any further sign handling applies to that zero)
     ex = exact_value(t)
     if not raised and ex in (PZERO, NZERO) and got in (PZERO, NZERO):
-        return 'zero-sign/' + ('multiply-negated' if n_negs(t) > 1 else 'negated' if n_negs(t) == 1 else 'plain') + f'/{kind}'
+        if ex == PZERO and n_negs(t) >= 1:
+            return 'negation-of-negative-zero-literal-gives-negative-zero'
+        return 'zero-sign/' + ('negated-zero-literal' if n_negs(t) else 'plain-zero-literal')
     if raised:
         return f'{got[0]}s:{got[1]}/{kind}'
-    return f'wrong-value/{kind}/{mode}' + ('/REAL' if model.kind == 'real' else '')
+    return f'wrong-value/{kind}'
 
 
 def judge(t, mode, model, got):
@@ -649,10 +661,6 @@ def judge(t, mode, model, got):
     return (failure_bucket(t, mode, model, got), shows(exp))
 
 
-def config_label(mode, ctxspec, via):
-    return [mode, ctxspec, via]
-
-
 def check_batch(res: Result, exprs, metas, mode, ctxspec, via, layout):
     """Evaluates all expressions in one generated function; falls back to one function per
     expression when the batch raises or an element disagrees (to isolate a minimal case)."""
@@ -670,7 +678,7 @@ def check_batch(res: Result, exprs, metas, mode, ctxspec, via, layout):
     single_failed = False
     for k, (e, t) in enumerate(zip(exprs, trees)):
         res.case()
-        cl, nt = classes_of(t, mode, model, e)
+        cl, nt = classes_of(t, mode, model)
         for c in cl:
             res.cls(c)
         for c in metas[k]:
@@ -1031,7 +1039,7 @@ def with_sign(r, atom):
 def gen_batch(r, fam, size):
     """-> (exprs, metas): batchable expressions (each denotes a number)."""
     plan = [(gen_int, 6, []), (gen_decimal, 8, []), (gen_long, 5, []), (gen_bigint_float, 5, []), (gen_extreme, 6, []),
-            (None, 12, ['boundary-directed']), (gen_zero, 3, []), (gen_hexfloat, 2, []), (gen_rational, 2, []), (gen_digits, 2, [])]
+            (None, 14, ['boundary-directed']), (gen_zero, 3, []), (gen_hexfloat, 2, []), (gen_rational, 2, []), (gen_digits, 2, [])]
     tot = sum(w for _, w, _ in plan)
     exprs, metas = [], []
     for _ in range(size):
@@ -1073,8 +1081,8 @@ def gen_singles(r):
 
 def shards(tier, seed):
     T = tier == 'thorough'
-    n = 192 if T else 40
-    per = 30 if T else 4
+    n = 192 if T else 48
+    per = 30 if T else 5
     return [('gen', i, per, seed, tier) for i in range(n)]
 
 
